@@ -298,7 +298,12 @@ func OidBytes(oid asn1.ObjectIdentifier) []byte {
 }
 
 // decodes the raw OID bytes (excluding the tag/length)
-func DecodeAsn1objectId(data []byte) (oid asn1.ObjectIdentifier) {
+// returns an error if the bytes are not a valid OID encoding
+func TryDecodeAsn1objectId(data []byte) (oid asn1.ObjectIdentifier, err error) {
+	if len(data) > 127 {
+		return nil, fmt.Errorf("OID too long (len: %d)", len(data))
+	}
+
 	var dataWithTag []byte
 
 	// wrap data with ASN1 OID tag (0x06)
@@ -308,7 +313,18 @@ func DecodeAsn1objectId(data []byte) (oid asn1.ObjectIdentifier) {
 
 	// attempt to parse OID
 	if rest, err := asn1.Unmarshal(dataWithTag, &oid); len(rest) > 0 || err != nil {
-		panic(fmt.Sprintf("Error parsing ASN1 OID (data: %x)", data))
+		return nil, fmt.Errorf("Error parsing ASN1 OID (data: %x)", data)
+	}
+
+	return oid, nil
+}
+
+// decodes the raw OID bytes (excluding the tag/length)
+// NB panics if the bytes are not a valid OID encoding
+func DecodeAsn1objectId(data []byte) (oid asn1.ObjectIdentifier) {
+	oid, err := TryDecodeAsn1objectId(data)
+	if err != nil {
+		panic(err.Error())
 	}
 
 	return oid
